@@ -245,6 +245,29 @@ pub fn run(args: &Args) -> Report {
             sets.push(SSet { a: BTreeSet::new(), b: [(DoubleKey(*a), vec![None, Some(DoubleKey(*a))])].into_iter().collect() });
         }
         run_type(&mut ctx, "struct{BTreeSet<DoubleKey>,BTreeMap<DoubleKey,..>}", sets);
+        // the key wrapper inside std containers, hashed and compared by std's own impls (these
+        // go through Hash::hash_slice and the slice / tuple / Option orders): what generated code
+        // holds for set<list<double>>, map<optional<double>, ..>, ...
+        let mut kl: Vec<Vec<DoubleKey>> = vec![vec![]];
+        for a in &d {
+            kl.push(vec![DoubleKey(*a)]);
+            for b in &s {
+                kl.push(vec![DoubleKey(*a), DoubleKey(*b)]);
+            }
+        }
+        run_type(&mut ctx, "Vec<DoubleKey>", kl.clone());
+        run_type(&mut ctx, "Box<[DoubleKey]>", kl.iter().take(30).map(|v| v.clone().into_boxed_slice()).collect());
+        run_type(&mut ctx, "BTreeSet<Vec<DoubleKey>>", kl.iter().take(24).map(|v| [v.clone(), vec![DoubleKey(1.0)]].into_iter().collect::<BTreeSet<_>>()).collect());
+        let mut ko: Vec<Option<DoubleKey>> = vec![None];
+        ko.extend(d.iter().map(|a| Some(DoubleKey(*a))));
+        run_type(&mut ctx, "Option<DoubleKey>", ko);
+        let mut kt: Vec<(DoubleKey, [DoubleKey; 2])> = vec![];
+        for a in &s {
+            for b in &s {
+                kt.push((DoubleKey(*a), [DoubleKey(*b), DoubleKey(*a)]));
+            }
+        }
+        run_type(&mut ctx, "(DoubleKey,[DoubleKey;2])", kt);
         let mut us = vec![UDouble::C(0), UDouble::C(1)];
         for a in &d {
             us.push(UDouble::A(*a));
